@@ -5,6 +5,7 @@ import (
 	"flag"
 	"fmt"
 	"image/color"
+	"math"
 	"strings"
 
 	"github.com/reactivego/ivg/decode"
@@ -192,6 +193,55 @@ func driveEnc(args []string) error {
 					one(fmt.Sprintf("runs/%s/%d", drawVerbs[vi].op, run), h)
 				}
 			}
+		case "longruns":
+			// runs far beyond any opcode's repeat limit, around the 8-bit boundary of a count
+			rng := newRand(106)
+			verbs := []int{1, 3, 10, 17} // RelLineTo, RelSmoothQuadTo, AbsHLineTo, RelArcTo
+			for k, run := range []int{255, 256, 257, 300, 511, 512, 513, 600} {
+				vi := verbs[(k+int(seed()))%len(verbs)]
+				if thorough() || k%2 == int(seed()%2) {
+					h := []Call{mkCall("StartPath", 1, 2)}
+					o := &progOpts{arcs: true, lattice: true}
+					for j := 0; j < run; j++ {
+						h = append(h, randDraw(rng, o, vi))
+					}
+					h = append(h, mkCall("ClosePathEndPath"))
+					one(fmt.Sprintf("longruns/%s/%d", drawVerbs[vi].op, run), h)
+				}
+			}
+		case "zerofirst":
+			// a never-Reset Encoder whose very first call is each method in turn, with arguments that coincide with the
+			// Encoder's initial state (selectors 0, LOD 0..+Inf, and the all-zero Go values) and arguments that do not
+			rng := newRand(107)
+			inf := float32(math.Inf(1))
+			sel := func(op string, v int) Call { c := mkCall(op); c.Sel = v; return c }
+			creg := func(c []int) Call { x := mkCall("SetCReg"); x.C = c; return x }
+			firsts := []Call{
+				mkCall("SetLOD", 0, 0), mkCall("SetLOD", 0, inf), mkCall("SetLOD", 1, 2), mkCall("SetLOD", 0, 24), mkCall("SetLOD", 80, inf),
+				sel("SetCSel", 0), sel("SetCSel", 5), sel("SetNSel", 0), sel("SetNSel", 7),
+				creg([]int{0, 0, 0, 0, 255}), creg([]int{0, 0, 0, 0, 0}), creg([]int{2, 0, 0, 0, 0}), creg([]int{1, 0, 0, 0, 0}),
+				mkCall("SetNReg", 0), mkCall("SetNReg", 0.5),
+				mkCall("StartPath", 0, 0), mkCall("StartPath", 1, 2),
+				mkCall("CSel"), mkCall("NSel"), mkCall("LOD"), mkCall("Bytes"), sel("SetHiRes", 1), sel("SetHiRes", 0),
+			}
+			for fi, first := range firsts {
+				for v := 0; v < 3; v++ {
+					h := []Call{first}
+					if first.Op == "StartPath" {
+						h = append(h, mkCall("RelLineTo", 3, 0), mkCall("RelLineTo", 0, 3), mkCall("ClosePathEndPath"))
+					}
+					if v > 0 {
+						// the same call once more (now on an initialised Encoder), then ordinary paths
+						if first.Op != "StartPath" {
+							h = append(h, first)
+						}
+						h = append(h, genProgram(rng, &progOpts{maxPaths: 2, maxRun: 3, arcs: v == 2, noReset: true, hires: v == 2})...)
+					} else if first.Op != "StartPath" {
+						h = append(h, mkCall("StartPath", 1, 2), mkCall("RelLineTo", 3, 0), mkCall("RelLineTo", 0, 3), mkCall("ClosePathEndPath"))
+					}
+					one(fmt.Sprintf("zerofirst/%d/%d", fi, v), h)
+				}
+			}
 		case "illegal":
 			rng := newRand(103)
 			for i := 0; i < *n; i++ {
@@ -298,6 +348,34 @@ func driveEnc(args []string) error {
 					continue
 				}
 				emitRoundTrip(rt.Next(), fmt.Sprintf("reuse/%d", i), h, append([]byte(nil), rb...), fb)
+			}
+			// a never-Reset Encoder that was only looked at (Bytes / selector read-backs: default metadata, nothing
+			// appended), then Reset with other metadata and used; afterwards *other* never-Reset Encoders must still
+			// produce what they produce in a fresh process (nothing of the first one's buffer is shared)
+			for i, looks := range [][]string{{"Bytes"}, {"CSel"}, {"NSel", "LOD"}, {}, {"Bytes", "Bytes"}} {
+				var a []Call
+				for _, op := range looks {
+					a = append(a, mkCall(op))
+				}
+				bprog := genProgram(rng, &progOpts{maxPaths: 2, maxRun: 3, arcs: true, meta: true})
+				if bprog[0].Pal == nil || i%2 == 0 {
+					pal := defaultPal()
+					pal[0], pal[7] = color.RGBA{0x30, 0x66, 0x07, 0xff}, color.RGBA{0x10, 0x20, 0x30, 0x80}
+					bprog[0] = mkCall("Reset", -24, -20, 24, 28)
+					bprog[0].Pal = palJ(pal)
+				}
+				h := append(append([]Call{}, a...), bprog...)
+				var e encode.Encoder
+				runHistory(&e, h, nil)
+				if rb, err := e.Bytes(); err == nil {
+					var f encode.Encoder
+					runHistory(&f, bprog, nil)
+					fb, _ := f.Bytes()
+					emitRoundTrip(rt.Next(), fmt.Sprintf("reuse/looked/%d", i), h, append([]byte(nil), rb...), fb)
+				}
+				one(fmt.Sprintf("reuse/looked/%d/then-zero", i), []Call{})
+				one(fmt.Sprintf("reuse/looked/%d/then-zero-path", i), []Call{mkCall("StartPath", 1, 2), mkCall("RelLineTo", 3, 0), mkCall("ClosePathEndPath")})
+				stats["reuse.looked"]++
 			}
 		default:
 			return fmt.Errorf("unknown family %q", fam)
